@@ -287,6 +287,27 @@ pub fn check_link(case: &LinkCase) -> CaseResult {
                     return Err(fail("chown-on-link|link-owner-not-changed", format!("{:?}", (md.uid(), md.gid()))));
                 }
             }
+            // ... also when the requested owner is the one the TARGET already has (an "already as requested"
+            // test that looks through the link would skip the link)
+            if let (Some((tu, tg)), true) = (before_owner, case.stdfs) {
+                use std::os::unix::fs::MetadataExt;
+                if v.chown(&l, tu, tg).is_ok() {
+                    let md = std::fs::symlink_metadata(&l).map_err(|e| fail("setup", e.to_string()))?;
+                    if (md.uid(), md.gid()) != (tu, tg) {
+                        return Err(fail("chown-on-link|link-owner-not-changed|requested-owner-is-the-targets", format!("chown(link, {}, {}) left the link with {:?}", tu, tg, (md.uid(), md.gid()))));
+                    }
+                }
+                let _ = v.chown(&l, 4321, 4322);
+                if v.chown_b(&ldir).and_then(|b| b.owner(tu, tg).recurse(true).exec()).is_ok() {
+                    let md = std::fs::symlink_metadata(&l).map_err(|e| fail("setup", e.to_string()))?;
+                    if (md.uid(), md.gid()) != (tu, tg) {
+                        return Err(fail("chown-recursive-over-link|link-owner-not-changed|requested-owner-is-the-targets", format!("chown_b(dir of link).owner({}, {}) left the link with {:?}", tu, tg, (md.uid(), md.gid()))));
+                    }
+                }
+                if v.owner(&t).ok() != before_owner {
+                    return Err(fail("chown-on-link|target-owner-changed", format!("{:?} -> {:?}", before_owner, v.owner(&t).ok())));
+                }
+            }
         }
         // recursive chmod / chown of the directory holding the link, without follow: a target outside of
         // that directory is never touched through the link
